@@ -210,7 +210,10 @@ IMG_SAFE = ["KDAdditiveGaussianNoise", "KDAdditiveUniformNoise", "KDColorJitter"
             "KDRandomAdditiveGaussianNoise", "KDRandomColorJitter", "KDRandomCrop", "KDRandomErasing",
             "KDRandomGaussianBlurTV", "KDRandomGrayscale", "KDRandomHorizontalFlip", "KDRandomResizedCrop",
             "KDRandomSolarize", "KDRandomThreshold", "KDThreshold", "KDSimpleRandomCrop", "KDMagnitudeJitter",
-            "KDRoll", "KDRandomRotation", FOREIGN, "KDSolarize", "KDGrayscale"]
+            "KDRoll", "KDRandomRotation", FOREIGN, "KDSolarize", "KDGrayscale", "KDImageNorm", "KDImageRangeNorm"]
+# deterministic leaves built without a registry entry; the two norms work IN PLACE on the tensor they are handed
+# (inplace=True is their default): whatever they are handed must not alias state that outlives the request
+DET_LEAVES = (FOREIGN, "KDSolarize", "KDGrayscale", "KDImageNorm", "KDImageRangeNorm")
 
 
 def find_class(name):
@@ -260,13 +263,17 @@ def build(spec, S):
         return find_class(c)(threshold=0.5)
     if c == "KDGrayscale":
         return find_class(c)()
+    if c == "KDImageNorm":
+        return find_class(c)(mean=(0.5, 0.4, 0.3), std=(0.25, 0.2, 0.3))
+    if c == "KDImageRangeNorm":
+        return find_class(c)()
     kind, mk = REG[c][spec.get("a", 0) % len(REG[c])]
     return find_class(c)(**mk(S))
 
 
 def spec_input_kind(spec):
     c = spec["c"]
-    if c in CONTAINERS or c in (FOREIGN, "KDSolarize", "KDGrayscale"):
+    if c in CONTAINERS or c in DET_LEAVES:
         return "img"
     return REG[c][spec.get("a", 0) % len(REG[c])][0]
 
@@ -276,7 +283,7 @@ def gen_tree(rng, depth, S, allow_choice=True, no_rot=False, no_foreign=False):
     if depth <= 0 or S < 8 or rng.random() < 0.3:
         pool = [c for c in IMG_SAFE if not (no_rot and c == "KDRandomRotation") and not (no_foreign and c == FOREIGN)]
         c = rng.choice(pool)
-        if c in (FOREIGN, "KDSolarize", "KDGrayscale"):
+        if c in DET_LEAVES:
             return {"c": c}
         opts = [i for i, (kind, _) in enumerate(REG[c]) if kind == "img"]
         return {"c": c, "a": rng.choice(opts)}
@@ -438,6 +445,10 @@ TRUSTED_COMMON = [
     "harness/translate_rng.py (ast -> class descriptors): trusted modulo this run's correspondence (every live object "
     "tree must be an instance of the generated table, the observed slots after the real set_rng must equal the model's, "
     "every generator observed drawing must be predicted by the model)",
+    "the translator accepts a closed list of source shapes (translate_rng.ACCEPTS) and aborts on everything else; that "
+    "sample wrappers keep no state between requests besides the generator slots of their transforms is checked "
+    "syntactically (translate_rng.wrapper_state_writes: no assignment / mutation rooted at self, no caching decorator "
+    "in the per-item code), get_rng_from_global and GlobalRng are compared textually with what the model assumes",
     "harness/rnglive.py: spy generators (count draws per generator object), global-RNG tripwire (state snapshots of "
     "np.random / random / torch), live-tree extraction through vars()",
     "`draws` over-approximates reachability (all methods of a class are scanned, all branches assumed taken); library "
